@@ -3,10 +3,10 @@
 # tools/seedcheck.sh check <ID> <checks...>  : apply the patch to /repo, run our quick checks, undo
 set -u
 WHAT=$1; ID=$2; shift 2
-WT=/tmp/seed/$ID
+ROOT=${SEEDROOT:-/tmp/seed}; WT=$ROOT/$ID
 OUT=$WT/SEED_OUT
 [ -d $OUT ] || OUT=/verif/seeded/$ID
-LOG=/tmp/seed/$ID.confirm.log
+LOG=$ROOT/$ID.confirm.log
 if [ $WHAT = confirm ]; then
   : > $LOG
   cd $WT || exit 2
@@ -26,7 +26,7 @@ cd /verif
 git -C /repo apply $OUT/patch.diff || { echo "patch does not apply to /repo"; exit 2; }
 TIER=${TIER:-quick}
 for c in "$@"; do
-  ./check $c $TIER > /tmp/seed/$ID.$c.out 2>&1; echo "check $c $TIER exit: $?"
-  grep -m2 -E "^\s+\[" /tmp/seed/$ID.$c.out | cut -c1-400
+  ./check $c $TIER > $ROOT/$ID.$c.out 2>&1; echo "check $c $TIER exit: $?"
+  grep -m2 -E "^\s+\[" $ROOT/$ID.$c.out | cut -c1-400
 done
 git -C /repo checkout -- .
